@@ -1,0 +1,21 @@
+//go:build verif
+
+package bitswap
+
+// Contracts for the deductive verifier in /verif (govc). Comments only; build tag "verif".
+//
+// C10: the per-request verifier a pending Bitswap fetch registers. For every pair of byte strings
+// (container, identifier) the verifier fills the request only if the identifier is the requested one
+// and the decoded container passed Verify against the requester's roots at the requested
+// coordinate; on every rejection the request is exactly as it was before (still unfulfilled); a
+// request that is already fulfilled is never overwritten.
+
+//@ func (*SampleBlock).UnmarshalFn$1
+//@   property C10
+//@   requires sb != nil
+//@   modifies sb
+//@   ensures sb.ID == old(sb.ID)
+//@   ensures err != nil ==> sb.Container == old(sb.Container)
+//@   ensures old(sb.Container.Proof) != nil ==> sb.Container == old(sb.Container)
+//@   ensures err == nil && old(sb.Container.Proof) == nil ==> len(idData) == shwap.SampleIDSize && u64be(idData, 0) == sb.ID.RowID.EdsID.height && u16be(idData, 8) == sb.ID.RowID.RowIndex && u16be(idData, 10) == sb.ID.ShareIndex
+//@   ensures err == nil && old(sb.Container.Proof) == nil ==> sb.Container.Proof != nil && nmtIncl1(deref(sb.Container.Proof), ((sb.ID.ShareIndex >= len(root.RowRoots)/2 || sb.ID.RowID.RowIndex >= len(root.RowRoots)/2) ? libshare.ParitySharesNamespace.data : sb.Container.Share.data[0:29]), sb.Container.Share.data, (sb.Container.ProofType == 0 ? root.RowRoots[uint(sb.ID.RowID.RowIndex)] : root.ColumnRoots[uint(sb.ID.ShareIndex)]))
